@@ -9,19 +9,21 @@ set -u
 group=$1; race=${2:-}
 . /verif/scripts/env.sh
 H=/verif/harness
+R=${VERIF_REPO:-/repo}
+W=${VERIF_WORK:-/verif}
 G=$H/t/$group
 # a group may reuse the sources of another group (e.g. the -race variant of the same monitor)
 [ -f "$G/SRC" ] && G=$H/t/$(cat "$G/SRC")
 [ -f "$G/PKG" ] || { echo "build.sh: unknown group $group" >&2; exit 2; }
 pkg=$(cat "$G/PKG")
-B=/verif/build/$group${race:+.race}
-mkdir -p "$B" /verif/bin
+B=$W/build/$group${race:+.race}
+mkdir -p "$B" $W/bin
 # modfile: repo go.mod with relative replaces made absolute + porcupine
-sed -e 's#=> \./#=> /repo/#' /repo/go.mod > "$B/go.mod"
+sed -e "s#=> \\./#=> $R/#" $R/go.mod > "$B/go.mod"
 if ! grep -q 'anishathalye/porcupine' "$B/go.mod"; then
   printf '\nrequire github.com/anishathalye/porcupine v1.3.0\n' >> "$B/go.mod"
 fi
-cp /repo/go.sum "$B/go.sum"
+cp $R/go.sum "$B/go.sum"
 # overlay
 {
   echo '{"Replace":{'
@@ -29,18 +31,18 @@ cp /repo/go.sum "$B/go.sum"
   emit() { if [ $first = 1 ]; then first=0; else echo ','; fi; printf ' "%s": "%s"' "$1" "$2"; }
   for d in $H/lib/*/; do
     n=$(basename "$d")
-    for f in "$d"*.go; do [ -f "$f" ] && emit "/repo/zzverif/$n/$(basename "$f")" "$f"; done
+    for f in "$d"*.go; do [ -f "$f" ] && emit "$R/zzverif/$n/$(basename "$f")" "$f"; done
   done
   for f in /verif/hooks/*.go; do
     [ -f "$f" ] || continue
     p=$(sed -n 's#^// verif-hook: *\(.*\)$#\1#p' "$f" | head -1)
-    [ -n "$p" ] && emit "/repo/$p/zz_verif_hook_$(basename "$f")" "$f"
+    [ -n "$p" ] && emit "$R/$p/zz_verif_hook_$(basename "$f")" "$f"
   done
-  for f in "$G"/*.go; do [ -f "$f" ] && emit "/repo/$pkg/zz_verif_$(basename "$G")_$(basename "$f")" "$f"; done
+  for f in "$G"/*.go; do [ -f "$f" ] && emit "$R/$pkg/zz_verif_$(basename "$G")_$(basename "$f")" "$f"; done
   echo; echo '}}'
 } > "$B/overlay.json"
-out=/verif/bin/$group${race:+.race}.test
-cd /repo || exit 2
+out=$W/bin/$group${race:+.race}.test
+cd $R || exit 2
 go test -c -tags verif -vet=off ${race:+-race} -modfile="$B/go.mod" -overlay="$B/overlay.json" -o "$out" "./$pkg" > "$B/build.log" 2>&1
 rc=$?
 if [ $rc -ne 0 ] || [ ! -x "$out" ]; then
